@@ -23,6 +23,7 @@ import Jamm.Gen.Params
 import Jamm.Gen.Layout
 import Jamm.Proofs.EncodeLemmas
 import Jamm.Model.EncodeWrites
+import Jamm.Proofs.EncodeMetaLemmas
 set_option linter.unusedSectionVars false
 open Std
 
@@ -117,5 +118,15 @@ theorem writer_is_its_write_list (pagesize pid overflow : Nat) (es : List (Bytes
     writeLeafPage Gen.layout pagesize pid overflow es s =
       applyWrites (leafPageWrites Gen.layout pagesize pid overflow es) s :=
   writeLeafPage_eq Gen.layout pagesize pid overflow es s
+
+/-- the free-list page a commit writes decodes to exactly the page ids written -/
+theorem freelist_page_roundtrip (pagesize pid overflow : Nat) (ids : List Nat) (s : Src)
+    (hfile : pid * pagesize + (overflow + 1) * pagesize ≤ s.size)
+    (hfit : Gen.layout.pgPtr + 8 * ids.length ≤ (overflow + 1) * pagesize)
+    (hhdr : Gen.layout.pageSize ≤ pagesize) (hid : pid < 2 ^ 64) (hrun : (overflow + 1) * pagesize < 2 ^ 64)
+    (hv : ∀ x ∈ ids, x < 2 ^ 64) :
+    decodePage Gen.layout (writeFreelistPage Gen.layout pagesize pid overflow ids s) pagesize pid =
+      .ok { id := pid, overflow := overflow, count := ids.length, body := .freelist ids } :=
+  decode_writeFreelistPage Gen.layout (by decide) pagesize pid overflow ids s hfile hfit hhdr hid hrun hv
 
 end Jamm.Props.C05
